@@ -70,7 +70,9 @@ def register(S):
     S.declare_fields("BytesIO", unread="bytes")
     RT_REQ = ["plain(v)", "wf(v)", "sized(v)"]
     RT_ENS = {"returns_v": ("same(result, v)", P_DEC), "consumes_exactly": ("stream.unread == rest", P_DEC)}
-    SAFE_ENS = {"yields_plain": ("plain(val(result))", P_SAFE)}
+    SAFE_ENS = {"yields_plain": ("plain(val(result))", P_SAFE),
+                # what the decoder yields can always be encoded again (sizes within the format, integers renderable)
+                "yields_reencodable": ("sized(val(result))", ["C04", "C18", "C08"])}
     SAFE_RAISES = {"Exception": {"props": P_SAFE}}      # the statement allows any exception on arbitrary bytes
 
     def loader(name, tag, loops_rt=None, loops_safe=None, calls=None, hints=(), result="val", split=()):
@@ -127,7 +129,8 @@ def register(S):
         "snoc_hints": ["app_snoc(acc, x, tail(todo))"],
         "exit_hints": ["app_nil(acc)", "vlen(todo)"],
     }}
-    LOOP_SAFE = {0: {"havoc": {"acc": "vl"}, "invariant": ["plain_list(acc)"], "snoc_hints": ["plain_snoc(acc, x)"]}}
+    LOOP_SAFE = {0: {"havoc": {"acc": "vl"}, "invariant": ["plain_list(acc)", "sized_list(acc)", "len(acc) == i", "i <= l"],
+                     "snoc_hints": ["plain_snoc(acc, x)", "sized_snoc(acc, x)", "vlen_snoc(acc, x)"]}}
     for name, tag in (("_load_tup_l1", "TUP_L1"), ("_load_tup_l4", "TUP_L4")):
         loader(name, tag, loops_rt=LOOP_RT, loops_safe=LOOP_SAFE,
                calls={"_load#0": {"ghost": {"v": "head(todo)", "rest": "enc_list(tail(todo)) + rest"}}})
